@@ -62,3 +62,23 @@ if b in d:
     print("tables updated:",len(o),"own,",len(s),"seeded")
 else:
     print("markers missing")
+
+# ---- bounds table (from evidence files of the last runs and the thorough log if present)
+import json as _j
+rows=[]
+for pid in ['C%02d'%i for i in range(1,21)]:
+    f=V+'/evidence/%s.json'%pid
+    if not os.path.exists(f): continue
+    e=_j.load(open(f)); c=e['coverage']
+    ex=c.get('explorations',[])
+    depths=sorted(set(str(x.get('depth_completed','-')) for x in ex))
+    rows.append("| %s | %s | %d | %s | %d | %d | %d | %.1f |" % (pid,e['tier'],len(ex),'/'.join(depths),c['states'],c['transitions'],c['evaluations'],e['wall_s']))
+tb="| property | tier of last committed evidence | explorations | depths completed | states | transitions | executions | wall s |\n|---|---|---|---|---|---|---|---|\n"+'\n'.join(rows)
+thor=V+'/thorough_results.txt'
+if os.path.exists(thor):
+    tb+="\n\nThorough tier, one full pass (`thorough_results.txt`):\n\n```\n"+open(thor).read()+"```\n"
+d=open(p).read()
+b='<!-- BOUNDS-TABLE-BEGIN -->'; e_='<!-- BOUNDS-TABLE-END -->'
+if b in d:
+    d=d[:d.index(b)+len(b)]+'\n'+tb+'\n'+d[d.index(e_):]
+    open(p,'w').write(d); print("bounds table updated")
